@@ -239,6 +239,7 @@ Json schedToJson(const gcs::Schedule& s) {
         for (auto y : s.ticks) t.push(Json((unsigned)y));
         j.set("tick_at_yield", t);
     }
+    j.set("preempt_seed", sim::hex64(s.preemptSeed)).set("preempt_one_in", s.preemptOneIn).set("resume_one_in", s.resumeOneIn);
     j.set("notify", s.notifyLost ? "lost" : "delivered").set("inject_error_at_yield", Json((long long)s.injectErrorAtYield)).set("inject_kind", s.injectKind);
     return j;
 }
@@ -252,6 +253,11 @@ gcs::Schedule schedFromJson(const Json& j) {
         s.stallYields = (int)j.at("stall_yields").asInt();
     } else {
         for (auto& e : j.at("tick_at_yield").a) s.ticks.push_back((uint32_t)e.asInt());
+    }
+    if (j.has("preempt_seed")) {
+        s.preemptSeed = strtoull(j.at("preempt_seed").asStr().c_str(), nullptr, 16);
+        s.preemptOneIn = (int)j.at("preempt_one_in").asInt(0);
+        s.resumeOneIn = (int)j.at("resume_one_in").asInt(2);
     }
     s.notifyLost = j.at("notify").asStr() == "lost";
     s.injectErrorAtYield = j.at("inject_error_at_yield").asInt(-1);
@@ -336,6 +342,11 @@ Plan generatePlan(uint64_t seed, uint64_t run, const std::string& property, bool
     if (knob.chance(0.1)) s.jumpAtYield = (int64_t)sch.below(200);
     if (knob.chance(0.1)) s.stallYields = 1 + (int)sch.below(5);
     s.notifyLost = knob.chance(0.3);
+    // mid-slice pre-emption of the timer thread at its atomic operations (effective in the ThreadSanitizer flavour only)
+    s.preemptSeed = sch.next();
+    static const int oneIn[] = {0, 1, 2, 3, 5, 8};
+    s.preemptOneIn = oneIn[knob.below(6)];
+    s.resumeOneIn = 1 + (int)knob.below(6);
     return p;
 }
 
@@ -381,6 +392,10 @@ void runOne(const sim::Options& opt, uint64_t run, sim::RunReport& rep, bool all
     rep.count("gc.notify_lost", B.stats.notifyLost);
     rep.count("gc.notify_delivered", B.stats.notifyDelivered);
     rep.count("gc.join_timeouts", B.stats.joinTimeouts);
+    rep.count("gc.timer_parked_mid_slice", B.stats.midSliceParks);
+    rep.count("gc.timer_resumed_mid_slice", B.stats.midSliceResumes);
+    rep.count("gc.notify_while_timer_mid_slice", B.stats.notifyWhileMidSlice);
+    rep.count("gc.lock_contended_with_parked_timer", B.stats.contendedLocks);
     rep.count("gc.timer_threads_started", B.stats.threadsStarted + e.A.stats.threadsStarted);
     rep.count("gc.timer_threads_exited", B.stats.threadsExited + e.A.stats.threadsExited);
     if (p.sched.injectErrorAtYield >= 0) rep.count("fault.error_injected");
@@ -662,6 +677,9 @@ int main(int argc, char** argv) {
 
     // vacuity guard
     std::vector<std::string> mandatory = {"yields", "gc.ticks_delivered", "gc.collections", "gc.collections_with_garbage", "gc.collected_with_pending_temp", "fault.error_injected", "gc.notify_lost", "gc.timer_threads_exited"};
+#ifdef GCS_ATOMIC_SEAM
+    if (opt.property == "C11") { mandatory.push_back("gc.timer_parked_mid_slice"); mandatory.push_back("gc.notify_while_timer_mid_slice"); }
+#endif
     std::vector<std::string> stuck;
     for (auto& m : mandatory)
         if (R.counters[m] == 0) stuck.push_back(m);
